@@ -140,6 +140,10 @@ def make_param_image(work, rng, nb, model, thresh, layout, shape=None):
         kind = b // nb
         vals = np.array([[rng.uniform(0.2, 3.0) if kind == 0 else (rng.uniform(-30, 30) if kind == 1 else rng.uniform(-0.5, 1.0))
                           for _ in range(W)] for _ in range(H)], dtype='float32')
+        if kind == 1 and rng.random() < 0.3:
+            # a constant band (an offset band in-painted from a single kernel; the offsets of the gain model): variance exactly 0, which the
+            # cumulative formula sum2 / n - (sum / n)^2 reaches only up to rounding
+            vals = np.full((H, W), np.float32(rng.choice([-24.78628921508789, 0.1, 105.44558715820312, 1 / 3, 0.0])), 'float32')
         m = base.copy()
         if b > 0:   # extra invalid pixels per band, always inside band 1's valid region
             for _ in range(rng.randint(0, 4)):
@@ -208,6 +212,8 @@ def param_oracle(res, rtol=1e-9):
         mean = sum(vals) / n
         var = sum((v - mean) ** 2 for v in vals) / n
         s2 = float(sum(v * v for v in vals) / n)
+        if any(math.isnan(float(st[k2])) for k2 in ('mean', 'std', 'min', 'max')):
+            return f'band {bi + 1}: NaN statistic although the band has {n} valid pixels: ' + ', '.join(f'{k2}={st[k2]}' for k2 in ('mean', 'std', 'min', 'max'))
         if abs(st['mean'] - float(mean)) > rtol * (1 + abs(float(mean))):
             return f'band {bi + 1}: mean {st["mean"]} != {float(mean)}'
         if abs(st['std'] ** 2 - float(var)) > rtol * (s2 + 1):
